@@ -180,6 +180,11 @@ func c15EventStates(tier string) []c15State {
 			out = append(out, c15State{Name: fmt.Sprintf("pods=%v policies=%v", ps, pl), C: mkCluster(ps, pl), Pods: ps})
 		}
 	}
+	// two pods of one name in namespaces ns1 and ns12 (what identifies a pod's rules must not be a prefix of another pod's)
+	for _, pl := range [][]string{{}, {"in-ns12"}, {"in-ns12", "in-podsel"}} {
+		ps := []string{"web", "db", "web12"}
+		out = append(out, c15State{Name: fmt.Sprintf("pods=%v policies=%v", ps, pl), C: mkCluster(ps, pl), Pods: ps})
+	}
 	return out
 }
 
